@@ -121,3 +121,33 @@ Theorem C11_batch_set_relation_events : forall w A f rid T w' n evs,
   evs = flat_map (sr_ev w rid) (table_ents w (retargeted T w (get_tables w f))).
 Proof. exact batch_set_relation_events_exact. Qed.
 Print Assumptions C11_batch_set_relation_events.
+
+(** ** Replaying the event stream rebuilds the world.  A shadow "entity -> component set" is
+    updated from each event alone (creation: enter the added set; removal: delete; otherwise
+    (old + added) - removed).  For every history of creations, Add/Remove/Exchange (with or
+    without relation argument), Relations.Set, RemoveEntity, registrations and reads, with a
+    listener subscribed to everything, the shadow rebuilt from the events alone holds exactly
+    the alive entities, each with the component set the world reports: no change goes
+    unreported, no event reports a change that did not happen. *)
+From Arche Require Import Proofs.EventReplay.
+Theorem C11_replay_step : forall w A S o,
+  R w A -> w_listener w = Some lall -> op_preE A o -> shadow_ok A S ->
+  let r := step w o in
+  shadow_ok (astep A o (snd (fst r))) (sh_replay S (snd r)) /\ w_listener (fst (fst r)) = Some lall.
+Proof. exact replay_step. Qed.
+
+Theorem C11_replaying_events_rebuilds_the_world : forall ops w A S,
+  R w A -> w_listener w = Some lall -> shadow_ok A S -> pre_runE w A ops ->
+  let w' := run w ops in let A' := snd (arun w A ops) in let S' := sh_replay S (events_of w ops) in
+  (forall e, e ∈ as_live A' -> assoc_get e S' = ent_mask w' e) /\
+  (forall e, e ∉ as_live A' -> assoc_get e S' = None).
+Proof. exact replay_rebuilds_world. Qed.
+
+Example C11_replay_nonvacuous :
+  let w := run (world_init 2 2 64) demo_replay_setup in
+  let A := snd (arun (world_init 2 2 64) a_init demo_replay_setup) in
+  (w_listener w = Some lall /\ pre_runE w A demo_replay_ops) /\
+  sh_replay [] (events_of w demo_replay_ops) = [(mkE 2 1, 4%N); (mkE 3 0, 3%N); (mkE 1 0, 4%N)] /\
+  length (events_of w demo_replay_ops) = 9.
+Proof. split; [exact demo_replay_pre|exact demo_replay_result]. Qed.
+Print Assumptions C11_replaying_events_rebuilds_the_world.
